@@ -144,6 +144,7 @@ struct op_rec {
     std::unique_ptr<asio::cancellation_signal> sig;
 };
 
+static size_t g_max_settle = 0;
 struct app {
     asio::io_context ioc;
     std::unique_ptr<client_t> c;
@@ -156,8 +157,12 @@ struct app {
 
     app() { br.attach(); }
 
-    size_t settle(long long budget = 2000000) {
+    // one settle() of a healthy client runs under 100 handlers in the ordinary scenario families and about 19 000 for
+    // a 64 KiB packet delivered 7 bytes at a time (g_max_settle, reported on stderr); a client that keeps itself busy
+    // without virtual time advancing is cut off here and reported as a "hang" event
+    size_t settle(long long budget = 300000) {
         size_t total = 0;
+        struct upd { size_t& t; ~upd() { if (t > g_max_settle) g_max_settle = t; } } u { total };
         try {
             ioc.restart();
             for (;;) {
@@ -684,6 +689,6 @@ int main(int argc, char** argv) {
         ++ran;
     }
     fclose(out); fclose(in);
-    fprintf(stderr, "simrun: %ld scenarios, %lld events\n", ran, W().events);
+    fprintf(stderr, "simrun: %ld scenarios, %lld events, max handlers per settle %zu\n", ran, W().events, g_max_settle);
     return 0;
 }
